@@ -105,7 +105,7 @@ Prune(self, rel, other, abs) ==
                        c     == self.ch[i][2]
                        cp    == Append(rel, key)
                        look  == IF AbsLookup THEN abs \o cp ELSE cp
-                       keep0 == HasPriorityOver(c, FirstNotMissing(other, look), FALSE)
+                       keep0 == HasPriorityOver(c, FirstNotMissing(other, look), Mut("PruneEqualPriority"))
                        c1    == IF IsComposed(c) THEN Prune(c, cp, other, abs) ELSE c
                        keep  == keep0 \/ (IsComposed(c) /\ StillThere(c1))
                    IN <<keep, key, c1>>]
@@ -144,11 +144,6 @@ PreFilter(other, rel, self) ==
     IN [other EXCEPT !.ch = IF IsList(other) THEN Renumber(ch) ELSE ch]
 
 ----------------------------------------------------------------------------
-\* The placeholder a !clear node leaves in the newer document after premerge:
-\* clear.py returns the (emptied) node of the older tree itself, so the merge
-\* meets one object on both sides.
-ClearMark == MkNode("clearmark", NoVal, <<>>)
-
 ValidIndex(l, k) == IsIntKey(k) /\ k.n >= 0 /\ k.n < Len(l.ch)
 
 RECURSIVE Merge(_, _, _), MergeKids(_, _, _, _)
@@ -195,11 +190,13 @@ MergeKids(self, other, path, i) ==
         value == other.ch[i][2]
         kp    == Append(path, key)
     IN
-    IF value.k = "clearmark"
-    THEN \* the emptied older node merged with itself: only an explicit !del
-         \* carried by that node removes the key (composed.py:315-316)
-         LET c == Child(self, key)
-         IN MergeKids(IF ExplicitDelete(c) THEN DelChildRaw(self, key) ELSE self, other, path, i + 1)
+    IF HasChild(self, key) /\ value = Child(self, key) /\ IsComposed(value) /\ IsEmpty(value)
+    THEN \* clear.py hands the emptied older node itself to the newer document, so the
+         \* merge meets ONE object on both sides: nothing is merged.  (F12, before the
+         \* fix: an explicit !del carried by that node removed the key, composed.py:315.)
+         \* Two distinct but equal empty containers merge to the same data.
+         MergeKids(IF ClearDropsDelTagged /\ ExplicitDelete(value) /\ ~Truthy(value)
+                   THEN DelChildRaw(self, key) ELSE self, other, path, i + 1)
     ELSE IF ~HasChild(self, key) /\ Mut("DropNewKeys") THEN MergeKids(self, other, path, i + 1)
     ELSE IF ~HasChild(self, key)
     THEN LET off == NotNewOffenders(value, kp, {}, TRUE)
@@ -265,7 +262,8 @@ PremergeNode(n, path, into, intoNone) ==
            IF intoNone \/ ~HasPath(into, path) THEN Err("PremergeError", path, path)
            ELSE LET t == At(into, path)
                 IN IF ~IsComposed(t) THEN Err("PremergeError", path, path)
-                   ELSE [o |-> ClearMark, into |-> SetAt(into, path, [t EXCEPT !.ch = <<>>])]
+                   ELSE IF Mut("ClearRemovesKey") THEN [o |-> [t EXCEPT !.ch = <<>>], into |-> RemoveAt(into, path)]
+                   ELSE [o |-> [t EXCEPT !.ch = <<>>], into |-> SetAt(into, path, [t EXCEPT !.ch = <<>>])]
       [] IsComposed(n) -> PremergeKids(n, path, into, intoNone)
       [] OTHER -> [o |-> n, into |-> into]
 
@@ -283,17 +281,22 @@ PremergeKids(n, path, into, intoNone) ==
                                          THEN prev.sets ELSE Append(prev.sets, <<key, r.o, c.k>>)]
         last == F[Len(n.ch)]
     IN IF IsErr(last) THEN last
-       ELSE \* composed.py:213-214: replaced children are re-set after the walk.
-            \* A composed child that was walked in place returns itself, but its
-            \* content may have changed: carry it over without re-adoption.
+       ELSE \* composed.py:213-214: replaced children are re-set (set_child: adopted by
+            \* their new parent) after the walk.  A composed child that was walked in
+            \* place returns itself, but its content may have changed: it is carried
+            \* over without re-adoption.  The node a !clear returns is the older tree's
+            \* own node: its re-adoption is visible in `into` as well.
             LET G[j \in 0..Len(last.sets)] ==
-                  IF j = 0 THEN n
-                  ELSE LET e == last.sets[j]
-                       IN IF e[3] \in {"append","extend","prev","clear"}
-                          THEN (IF e[2].k = "clearmark" THEN SetChildRaw(G[j-1], e[1], e[2])
-                                ELSE SetChild(G[j-1], e[1], e[2]))
-                          ELSE SetChildRaw(G[j-1], e[1], e[2])
-            IN [o |-> G[Len(last.sets)], into |-> last.into]
+                  IF j = 0 THEN [o |-> n, into |-> last.into]
+                  ELSE LET e  == last.sets[j]
+                           g  == G[j-1]
+                       IN IF e[3] \in {"append", "extend", "prev"}
+                          THEN [o |-> SetChild(g.o, e[1], e[2]), into |-> g.into]
+                          ELSE IF e[3] = "clear"
+                          THEN LET o2 == SetChild(g.o, e[1], e[2])
+                               IN [o |-> o2, into |-> SetAt(g.into, Append(path, e[1]), Child(o2, e[1]))]
+                          ELSE [o |-> SetChildRaw(g.o, e[1], e[2]), into |-> g.into]
+            IN G[Len(last.sets)]
 
 ----------------------------------------------------------------------------
 \* node.py:315-322 `self.ayns.merge(other)` for two top-level documents
